@@ -92,11 +92,12 @@ TYPES = {
     "grid1": ([1, 2, 3], lambda l: len(l) - 1 == l[0]),
     "grid3": ([3, 4, 5, 7], lambda l: len(l) - 3 == l[0] * l[1] * l[2]),
     "bf9": ([4], lambda l: max(l[:3]) <= 1),
+    "nest": ([0, 1, 2, 3], lambda l: l == [] or (l[0] == 0 and len(l) <= 2) or (l[0] == 1 and len(l) == 3)),
     "unit": ([0], lambda l: True),
     "itr": ([2], lambda l: l[0] <= l[1]),
 }
 # number of construction routes the harness offers per type (the model is a value model: routes do not matter)
-ROUTES = {"unit": 1, "bf3": 1, "bf9": 1, "opt": 3, "eith": 3, "var": 3, "tup": 2, "arr": 2, "earr": 2, "rec": 2, "sti": 2, "recu": 5, "vec1": 3, "vec2": 3,
+ROUTES = {"unit": 1, "bf3": 1, "bf9": 1, "nest": 2, "opt": 3, "eith": 3, "var": 3, "tup": 2, "arr": 2, "earr": 2, "rec": 2, "sti": 2, "recu": 5, "vec1": 3, "vec2": 3,
           "vec3": 3, "vec4": 3, "dim2": 3, "dim3": 3, "mat22": 2, "mat23": 2, "box2": 3, "box3": 3, "sph2": 2, "sph3": 2,
           "grid": 4, "grid1": 4, "grid3": 4, "tree": 3, "rv": 5, "ref": 3, "sp": 3, "itr": 2}
 # maxlen for the route-pair digests (quick, thorough) where the full domain would be too large
@@ -315,6 +316,9 @@ def rand_value(r, ty, wide):
         return [w, h, d] + [comp() for _ in range(w * h * d)]
     if ty == "unit":
         return []
+    if ty == "nest":
+        k = r.below(4)
+        return [[], [0], [0, comp()], [1, comp(), comp()]][k]
     if ty == "itr":
         i = r.below(3)
         return [i, r.range(i, 2)]
@@ -351,6 +355,11 @@ def near(r, ty, v):
         return w
     if ty == "itr":
         return [w[0], w[0]] if i == 0 else [w[1], w[1]]
+    if ty == "nest":
+        if i == 0:
+            return [[], [0], [0, 1], [1, 0, 1]][r.below(4)]
+        w[i] += r.choice([-1, 1])
+        return w
     if ty == "tree":
         w[i - i % 2] += r.choice([-1, 1])    # only values; the shape stays
         return w
